@@ -90,6 +90,7 @@ def _all():
             [interval("i", 1, 3)], [interval("i", 0, 1), interval("i", 3, 3)], [interval("i", 2, 1), interval("i", 0, 2)]]
     G = alts1("o")
     glists = [[g] for g in G[:6]] + [[G[0], G[7]], [G[1], G[5]], [G[10], G[11]], [G[2], G[12]]]
+    glists += [[interval("o", 0, 1), interval("o", 0, 3)], [interval("o", 0, 3), interval("o", 1, 2)], [interval("o", None, 1), interval("o", None, 3)]]  # nested
     for a1 in disj:
         for a2 in disj:
             for g1 in glists:
